@@ -1,11 +1,679 @@
 package sim
 
-import "net/http"
+// WebTransport without QUIC: in-memory fakes of the quic-go / http3
+// *interfaces* that webtransport-go needs on the server side
+// (http3.Hijacker, http3.HTTPStreamer, http3.Connection, http3.Stream,
+// quic.Stream).  The real webtransport.Server.Upgrade, Session, AcceptStream,
+// capsule handling and the repository's OnWebTransportSession run on top.
+//
+// Model: one QUIC connection per WebTransport session (browsers do not pool
+// by default).  CONNECT request stream = stream 0 (so the session id is 0),
+// the client's bidirectional data stream = stream 4; it is injected through
+// the exported H3.StreamHijacker exactly as the http3 server would do after
+// reading frame type 0x41.
+//
+// Concurrency rules (see simrt): fake methods may be called by managed tasks
+// and by webtransport-go's own goroutines (Session.handleConn, the capsule
+// reader).  All waits go through half.read (simrt.Block for tasks, a durable
+// channel wait for the others), critical sections are a few statements, and
+// every state change that can wake somebody is followed by simrt.Settle()
+// when the caller is a task, so that the woken goroutine has run to its next
+// blocking point before the caller goes on.
 
-// WebTransport fakes: placeholder until the http3/quic interface fakes are in.
+import (
+	"context"
+	"encoding/binary"
+	"errors"
+	"fmt"
+	"io"
+	"net"
+	"net/http"
+	"sync"
+	"time"
 
-func (c *Client) openWT(sid string) (streamConn, *Resp) { return nil, nil }
+	"github.com/quic-go/quic-go"
+	"github.com/quic-go/quic-go/http3"
+	"github.com/quic-go/quic-go/quicvarint"
+	"github.com/zishang520/engine.io/v2/simrt"
+	"github.com/zishang520/engine.io/v2/types"
+	webtrans "github.com/zishang520/engine.io/v2/webtransport"
+	"github.com/zishang520/webtransport-go"
+	"verif/sim/ref"
+)
 
-func (c *Client) openWTRaw(first []byte) (streamConn, *Resp) { return nil, nil }
+const (
+	wtFrameType            = 0x41   // WEBTRANSPORT_STREAM signal value
+	wtCloseSessionCapsule  = 0x2843 // CLOSE_WEBTRANSPORT_SESSION
+	wtSettingsEnable       = 0x2b603742
+	wtAppErrorZero         = quic.StreamErrorCode(0x52e4a40fa8db) // WebTransport application error 0 mapped into the HTTP/3 space
+	h3NoError              = 0x100
+	h3RequestCancelled     = 0x10c
+	wtLocalAddr    simAddr = "10.0.0.1:443"
+)
 
-func (w *World) h3Writer(base *respWriter, r *Resp) http.ResponseWriter { return base }
+// ---- per-World state -----------------------------------------------------------
+
+// wtWorld is the WebTransport side of one World: the application's
+// *webtransport.Server plus every fake connection ever opened.
+type wtWorld struct {
+	w       *World
+	wts     *webtransport.Server
+	initErr error
+	nConn   uint64
+	conns   []*wtConn
+}
+
+// Only one simulation is active per process (simrt has one active scheduler),
+// so one slot is enough; a new World replaces the previous one, which keeps
+// dead Worlds collectable without any hook in the other files.
+var wtReg struct {
+	mu  sync.Mutex
+	cur *wtWorld
+}
+
+func (w *World) wtLookup() *wtWorld {
+	wtReg.mu.Lock()
+	defer wtReg.mu.Unlock()
+	if wtReg.cur != nil && wtReg.cur.w == w {
+		return wtReg.cur
+	}
+	return nil
+}
+
+// wtState returns the World's webtransport.Server, creating it on first use.
+// It must run inside the bubble (it creates contexts).
+func (w *World) wtState() *wtWorld {
+	wtReg.mu.Lock()
+	defer wtReg.mu.Unlock()
+	if wtReg.cur != nil && wtReg.cur.w == w {
+		return wtReg.cur
+	}
+	// what types.HttpServer.webtransportServer builds, minus address and handler
+	st := &wtWorld{w: w, wts: &webtransport.Server{CheckOrigin: func(*http.Request) bool { return true }}}
+	// initialize() is unexported: Serve runs it and then fails at once for lack
+	// of a TLS configuration, before anything is listened on or spawned.
+	st.initErr = st.wts.Serve(nil)
+	if st.wts.H3.StreamHijacker == nil {
+		panic(fmt.Sprintf("sim: webtransport.Server did not initialise (Serve: %v)", st.initErr))
+	}
+	wtReg.cur = st
+	return st
+}
+
+// closeWT ends everything WebTransport of this World: sessions whose client
+// never closed them, then the webtransport.Server.  Safe to call twice.
+func (w *World) closeWT() {
+	st := w.wtLookup()
+	if st == nil {
+		return
+	}
+	for _, cn := range st.conns {
+		if cn.client != nil {
+			cn.client.close()
+		} else {
+			cn.clientCloseConn()
+		}
+	}
+	simrt.Settle()
+	st.wts.Close()
+	wtReg.mu.Lock()
+	if wtReg.cur == st {
+		wtReg.cur = nil
+	}
+	wtReg.mu.Unlock()
+}
+
+// ---- fake QUIC connection ------------------------------------------------------
+
+// wtConn is http3.Connection for one client connection.
+type wtConn struct {
+	st       *wtWorld
+	c        *Client
+	tid      quic.ConnectionTracingID
+	ctx      context.Context
+	cancel   context.CancelFunc
+	settings chan struct{}
+	req      *wtStream // CONNECT stream (id 0)
+	bidi     *wtStream // client's data stream (id 4), nil until opened
+	client   *wtClient
+	remote   simAddr
+
+	mu       sync.Mutex
+	hijacked bool // HTTPStream() was called
+	gone     bool // connection closed
+}
+
+func (st *wtWorld) newConn(c *Client) *wtConn {
+	st.nConn++
+	cn := &wtConn{st: st, c: c, tid: quic.ConnectionTracingID(st.nConn), settings: make(chan struct{}),
+		remote: simAddr(c.w.clientAddr(c.name))}
+	close(cn.settings) // the client's SETTINGS arrived before its first request
+	cn.ctx, cn.cancel = context.WithCancel(context.WithValue(context.Background(), quic.ConnectionTracingKey, cn.tid))
+	cn.req = cn.newStream(0)
+	st.conns = append(st.conns, cn)
+	return cn
+}
+
+func (cn *wtConn) newStream(id quic.StreamID) *wtStream {
+	s := &wtStream{id: id, conn: cn, in: newHalf(), out: newHalf()}
+	s.ctx, s.cancel = context.WithCancel(cn.ctx)
+	return s
+}
+
+func (cn *wtConn) isHijacked() bool {
+	cn.mu.Lock()
+	defer cn.mu.Unlock()
+	return cn.hijacked
+}
+
+var errWTNoServerStreams = errors.New("sim: server-initiated streams are not modelled")
+
+func (cn *wtConn) OpenStream() (quic.Stream, error)                         { return nil, errWTNoServerStreams }
+func (cn *wtConn) OpenStreamSync(context.Context) (quic.Stream, error)      { return nil, errWTNoServerStreams }
+func (cn *wtConn) OpenUniStream() (quic.SendStream, error)                  { return nil, errWTNoServerStreams }
+func (cn *wtConn) OpenUniStreamSync(context.Context) (quic.SendStream, error) {
+	return nil, errWTNoServerStreams
+}
+func (cn *wtConn) LocalAddr() net.Addr                   { return wtLocalAddr }
+func (cn *wtConn) RemoteAddr() net.Addr                  { return cn.remote }
+func (cn *wtConn) Context() context.Context              { return cn.ctx }
+func (cn *wtConn) ConnectionState() quic.ConnectionState { return quic.ConnectionState{SupportsDatagrams: true, Version: quic.Version1} }
+func (cn *wtConn) ReceivedSettings() <-chan struct{}     { return cn.settings }
+func (cn *wtConn) Settings() *http3.Settings {
+	return &http3.Settings{EnableDatagrams: true, EnableExtendedConnect: true, Other: map[uint64]uint64{wtSettingsEnable: 1}}
+}
+
+// CloseWithError is the server closing the whole connection.
+func (cn *wtConn) CloseWithError(code quic.ApplicationErrorCode, msg string) error {
+	cn.shutdown(&quic.ApplicationError{ErrorCode: code, ErrorMessage: msg, Remote: false},
+		&quic.ApplicationError{ErrorCode: code, ErrorMessage: msg, Remote: true})
+	simrt.Settle()
+	return nil
+}
+
+// clientCloseConn is the client closing (or losing) the connection.
+func (cn *wtConn) clientCloseConn() {
+	cn.shutdown(&quic.ApplicationError{ErrorCode: h3NoError, Remote: true},
+		&quic.ApplicationError{ErrorCode: h3NoError, Remote: false})
+}
+
+// shutdown ends every stream: srvErr is what the server's pending and future
+// operations return, cliErr what the client's do.  Earlier errors and EOFs win.
+func (cn *wtConn) shutdown(srvErr, cliErr error) {
+	cn.mu.Lock()
+	if cn.gone {
+		cn.mu.Unlock()
+		return
+	}
+	cn.gone = true
+	strs := []*wtStream{cn.req, cn.bidi}
+	cn.mu.Unlock()
+	for _, s := range strs {
+		if s == nil {
+			continue
+		}
+		s.in.wtFailRead(srvErr, false, false)
+		s.in.wtFailWrite(cliErr)
+		s.out.wtFailRead(cliErr, true, false)
+		s.out.wtFailWrite(srvErr)
+	}
+	cn.cancel()
+}
+
+// ---- half helpers (first error wins) ------------------------------------------------
+
+// wtFailRead makes the reader of h fail with err.  keepData: the reader first
+// drains what was written before.  afterEOF: also replace a pending EOF.
+func (h *half) wtFailRead(err error, keepData, afterEOF bool) {
+	h.mu.Lock()
+	defer h.mu.Unlock()
+	if h.rerr != nil {
+		return
+	}
+	if h.closed && !afterEOF && (keepData || len(h.buf) == 0) {
+		return // the reader gets (the data and) the EOF that was there first
+	}
+	if keepData && len(h.buf) > 0 {
+		if h.failAt >= 0 {
+			return
+		}
+		h.failAt, h.failErr = h.total, err
+	} else {
+		h.rerr = err
+		h.buf = nil
+	}
+	h.signal()
+}
+
+func (h *half) wtFailWrite(err error) {
+	h.mu.Lock()
+	defer h.mu.Unlock()
+	if h.werr != nil {
+		return
+	}
+	h.werr = err
+	h.signal()
+}
+
+// wtFin is a FIN from the writer (no-op once the write side failed).
+func (h *half) wtFin() bool {
+	h.mu.Lock()
+	defer h.mu.Unlock()
+	if h.werr != nil || h.closed {
+		return false
+	}
+	h.closed = true
+	h.signal()
+	return true
+}
+
+// wtWriteState samples (write side closed, write error).
+func (h *half) wtWriteState() (closed bool, werr error) {
+	h.mu.Lock()
+	defer h.mu.Unlock()
+	return h.closed, h.werr
+}
+
+func (h *half) wtReadErr() error {
+	h.mu.Lock()
+	defer h.mu.Unlock()
+	return h.rerr
+}
+
+// ---- fake QUIC / HTTP/3 stream ---------------------------------------------------
+
+// wtStream is quic.Stream and http3.Stream as the server sees it.
+type wtStream struct {
+	id     quic.StreamID
+	conn   *wtConn
+	in     *half // client -> server
+	out    *half // server -> client
+	ctx    context.Context
+	cancel context.CancelFunc
+}
+
+var _ http3.Stream = (*wtStream)(nil)
+var _ http3.Connection = (*wtConn)(nil)
+
+func (s *wtStream) StreamID() quic.StreamID    { return s.id }
+func (s *wtStream) Context() context.Context  { return s.ctx }
+func (s *wtStream) Read(b []byte) (int, error) { return s.in.read(b) }
+
+func (s *wtStream) Write(b []byte) (int, error) {
+	if closed, werr := s.out.wtWriteState(); closed && werr == nil {
+		return 0, fmt.Errorf("write on closed stream %d", s.id)
+	}
+	return s.out.write(b)
+}
+
+// Close closes the send direction (FIN).
+func (s *wtStream) Close() error {
+	if _, werr := s.out.wtWriteState(); werr != nil {
+		return fmt.Errorf("close called for canceled stream %d", s.id)
+	}
+	s.out.wtFin()
+	s.cancel()
+	simrt.Settle()
+	return nil
+}
+
+// CancelRead: pending and future reads fail, buffered data is dropped, the
+// peer is told to stop sending.
+func (s *wtStream) CancelRead(code quic.StreamErrorCode) {
+	s.in.wtFailRead(&quic.StreamError{StreamID: s.id, ErrorCode: code, Remote: false}, false, false)
+	s.in.wtFailWrite(&quic.StreamError{StreamID: s.id, ErrorCode: code, Remote: true})
+	simrt.Settle()
+}
+
+// CancelWrite resets the send direction: the peer gets what was already
+// written (our network delivers instantly) and then the reset.
+func (s *wtStream) CancelWrite(code quic.StreamErrorCode) {
+	if closed, werr := s.out.wtWriteState(); !closed && werr == nil {
+		s.out.wtFailWrite(&quic.StreamError{StreamID: s.id, ErrorCode: code, Remote: false})
+		s.out.wtFailRead(&quic.StreamError{StreamID: s.id, ErrorCode: code, Remote: true}, true, false)
+	}
+	s.cancel()
+	simrt.Settle()
+}
+
+func (s *wtStream) SetDeadline(time.Time) error      { return nil }
+func (s *wtStream) SetReadDeadline(time.Time) error  { return nil }
+func (s *wtStream) SetWriteDeadline(time.Time) error { return nil }
+
+func (s *wtStream) SendDatagram([]byte) error { return nil }
+func (s *wtStream) ReceiveDatagram(ctx context.Context) ([]byte, error) {
+	select {
+	case <-ctx.Done():
+		return nil, ctx.Err()
+	case <-s.ctx.Done():
+		return nil, context.Cause(s.ctx)
+	}
+}
+
+// clientReset is RESET_STREAM + STOP_SENDING from the client.
+func (s *wtStream) clientReset(code quic.StreamErrorCode) {
+	s.in.wtFailRead(&quic.StreamError{StreamID: s.id, ErrorCode: code, Remote: true}, false, true)
+	s.in.wtFailWrite(&quic.StreamError{StreamID: s.id, ErrorCode: code, Remote: false})
+	s.out.wtFailWrite(&quic.StreamError{StreamID: s.id, ErrorCode: code, Remote: true})
+	s.out.wtFailRead(&quic.StreamError{StreamID: s.id, ErrorCode: code, Remote: false}, false, true)
+	s.cancel() // the send side's context ends when the peer stops reading
+}
+
+// ---- response writer ----------------------------------------------------------------
+
+// h3RespWriter is the recording response writer of a request that arrived
+// over HTTP/3.
+type h3RespWriter struct {
+	*respWriter
+	conn *wtConn
+}
+
+func (w *h3RespWriter) Connection() http3.Connection { return w.conn }
+func (w *h3RespWriter) HTTPStream() http3.Stream {
+	w.r.Hijacked = true
+	w.conn.mu.Lock()
+	w.conn.hijacked = true
+	w.conn.mu.Unlock()
+	return w.conn.req
+}
+
+var _ http3.Hijacker = (*h3RespWriter)(nil)
+var _ http3.HTTPStreamer = (*h3RespWriter)(nil)
+var _ http.Flusher = (*h3RespWriter)(nil)
+
+func (w *World) h3Writer(base *respWriter, r *Resp) http.ResponseWriter {
+	cn, ok := r.h3.(*wtConn)
+	if !ok {
+		return base
+	}
+	return &h3RespWriter{respWriter: base, conn: cn}
+}
+
+// handler is the application's routing as in the README (section E).
+func (st *wtWorld) handler(cn *wtConn) http.Handler {
+	return http.HandlerFunc(func(rw http.ResponseWriter, r *http.Request) {
+		// http3 ties the request context to the connection and to the send side
+		// of the request stream, not to the return of the handler
+		r = r.WithContext(cn.req.ctx)
+		if webtrans.IsWebTransportUpgrade(r) {
+			st.w.Srv.OnWebTransportSession(types.NewHttpContext(rw, r), st.wts)
+		} else {
+			st.w.H.ServeHTTP(rw, r)
+		}
+		if !cn.isHijacked() {
+			// the http3 server finishes the response itself
+			cn.req.CancelRead(h3NoError)
+			cn.req.Close()
+		}
+	})
+}
+
+// ---- client -----------------------------------------------------------------------------
+
+// wtClient is the client end of one WebTransport session.
+type wtClient struct {
+	c        *Client
+	conn     *wtConn
+	rbuf     []byte      // undecoded bytes of the data stream
+	q        []ref.WTMsg // decoded, not yet returned
+	cbuf     []byte      // undecoded bytes of the CONNECT stream
+	done     error
+	closed   bool // closed or reset by the client
+	sessSeen bool // the end of the session was observed (and recorded)
+	sessCode uint32
+	sessMsg  string
+	sessHow  string
+	NFrames  int
+}
+
+func (c *Client) openWT(sid string) (streamConn, *Resp) {
+	data := []byte(nil)
+	if sid != "" {
+		data = []byte(`{"sid":"` + sid + `"}`)
+	}
+	pk, bin := ref.EncodePacket(ref.Packet{Type: tOpen, Data: data}, 4, true)
+	s, r := c.wtOpen(ref.AppendWTFrame(nil, ref.WTMsg{Binary: bin, Data: pk}))
+	if s == nil {
+		return nil, r
+	}
+	return s, r
+}
+
+func (c *Client) openWTRaw(first []byte) (streamConn, *Resp) {
+	s, r := c.wtOpen(first)
+	if s == nil {
+		return nil, r
+	}
+	return s, r
+}
+
+var _ rawConn = (*wtClient)(nil)
+
+// wtOpen establishes a session: CONNECT, then one bidirectional stream that
+// starts with the session id and first.
+func (c *Client) wtOpen(first []byte) (*wtClient, *Resp) {
+	st := c.w.wtState()
+	cn := st.newConn(c)
+	h := c.hdr()
+	h["Sec-Webtransport-Http3-Draft02"] = "1"
+	c.lat()
+	req, resp := c.w.newRequest(c.name, ReqSpec{Method: "CONNECT", Proto: "webtransport", Path: c.path(),
+		Query: c.query("webtransport"), Hdr: h, H3: cn})
+	req.ProtoMajor, req.ProtoMinor = 3, 0
+	hd := st.handler(cn)
+	c.spawn("wtreq", func() { c.w.serveReq(hd, req, resp) })
+	// the response headers reach the client when the server flushed them
+	// (Upgrade) or when the handler is done (refusal)
+	simrt.Block(func() bool { return resp.Returned || cn.isHijacked() })
+	c.lat()
+	if !cn.isHijacked() || resp.Status != http.StatusOK {
+		simrt.Block(func() bool { return resp.Returned })
+		cn.clientCloseConn()
+		simrt.Settle()
+		return nil, resp
+	}
+	s := &wtClient{c: c, conn: cn}
+	cn.client = s
+	bidi := cn.newStream(4)
+	if len(c.sp.Frag) > 0 {
+		bidi.in.frag = c.sp.Frag
+	}
+	bidi.in.onFault = c.w.fault
+	cn.mu.Lock()
+	cn.bidi = bidi
+	cn.mu.Unlock()
+	b := quicvarint.Append(nil, uint64(cn.req.id)) // session id = id of the CONNECT stream
+	b = append(b, first...)
+	bidi.in.write(b)
+	// the http3 server has read frame type 0x41 and hands the stream over
+	ok, err := st.wts.H3.StreamHijacker(http3.FrameType(wtFrameType), cn.tid, bidi, nil)
+	simrt.Settle()
+	if !ok || err != nil {
+		c.rec("c-wt-stream-not-hijacked", fmt.Sprint(err), 0)
+		s.close()
+		return nil, resp
+	}
+	if bidi.in.wtReadErr() != nil {
+		// the session was already closed: the server refused the stream
+		s.pollSession()
+		c.rec("c-wt-stream-refused", "", 0)
+		s.close()
+		return nil, resp
+	}
+	return s, resp
+}
+
+func (s *wtClient) kind() string { return "webtransport" }
+
+func (s *wtClient) sendPacket(p ref.Packet) error {
+	var data []byte
+	var bin bool
+	if p.Type == 9 { // garbage
+		data, bin = append([]byte("9"), p.Data...), false
+	} else {
+		data, bin = ref.EncodePacket(p, 4, true)
+	}
+	return s.sendRaw(ref.AppendWTFrame(nil, ref.WTMsg{Binary: bin, Data: data}))
+}
+
+func (s *wtClient) sendRaw(b []byte) error {
+	if s.closed {
+		return errors.New("webtransport: session closed by client")
+	}
+	_, err := s.conn.bidi.in.write(b)
+	simrt.Settle()
+	return err
+}
+
+// pollSession consumes what the server put on the CONNECT stream so far
+// (never blocks) and records the end of the session once.
+func (s *wtClient) pollSession() {
+	if s.sessSeen {
+		return
+	}
+	h := s.conn.req.out
+	var ended error
+	var tmp [512]byte
+	for h.readable() {
+		n, err := h.read(tmp[:])
+		s.cbuf = append(s.cbuf, tmp[:n]...)
+		if err != nil {
+			ended = err
+			break
+		}
+	}
+	for {
+		typ, n1, err := quicvarint.Parse(s.cbuf)
+		if err != nil {
+			break
+		}
+		ln, n2, err := quicvarint.Parse(s.cbuf[n1:])
+		if err != nil || uint64(len(s.cbuf)-n1-n2) < ln {
+			break
+		}
+		val := s.cbuf[n1+n2 : n1+n2+int(ln)]
+		s.cbuf = s.cbuf[n1+n2+int(ln):]
+		if typ == wtCloseSessionCapsule && len(val) >= 4 {
+			s.sessSeen, s.sessHow = true, "capsule"
+			s.sessCode, s.sessMsg = binary.BigEndian.Uint32(val), string(val[4:])
+			break
+		}
+		s.c.rec("c-wt-capsule", fmt.Sprintf("type=%#x len=%d", typ, ln), 0)
+	}
+	if !s.sessSeen && ended != nil {
+		s.sessSeen, s.sessHow = true, "reset"
+		if errors.Is(ended, io.EOF) {
+			s.sessHow = "fin"
+		}
+	}
+	if s.sessSeen {
+		s.c.w.recx(Ev{Sess: s.c.name, Kind: "c-wt-session-closed", N: int64(s.sessCode), S: s.sessMsg, P: []string{s.sessHow}})
+	}
+}
+
+func (s *wtClient) recvPacket() (ref.Packet, error) {
+	bo, ro := s.conn.bidi.out, s.conn.req.out
+	var tmp [4096]byte
+	for {
+		if len(s.q) > 0 {
+			m := s.q[0]
+			s.q = s.q[1:]
+			p, err := ref.DecodePacket(m.Data, m.Binary, 4)
+			if err != nil {
+				s.c.rec("c-undecodable-frame", err.Error(), 0)
+				return ref.Packet{}, err
+			}
+			return p, nil
+		}
+		if s.done != nil {
+			return ref.Packet{}, s.done
+		}
+		simrt.Block(func() bool { return s.closed || bo.readable() || (!s.sessSeen && ro.readable()) })
+		if s.closed {
+			s.done = errors.New("webtransport: session closed by client")
+			continue
+		}
+		if bo.readable() {
+			n, err := bo.read(tmp[:])
+			if n > 0 {
+				s.rbuf = append(s.rbuf, tmp[:n]...)
+				msgs, rest, derr := ref.DecodeWTStream(s.rbuf)
+				s.rbuf = append([]byte(nil), rest...)
+				for _, m := range msgs {
+					s.NFrames++
+					s.c.w.recx(Ev{Sess: s.c.name, Kind: "c-wt-frame", N: int64(len(m.Data)), S: fmt.Sprintf("binary=%v", m.Binary)})
+				}
+				s.q = append(s.q, msgs...)
+				if derr != nil {
+					s.done = derr
+				}
+				continue
+			}
+			if err != nil {
+				s.pollSession()
+				s.done = fmt.Errorf("webtransport: stream ended: %v%s", err, s.sessInfo())
+			}
+			continue
+		}
+		s.pollSession()
+		if s.sessSeen {
+			s.done = fmt.Errorf("webtransport: session ended%s", s.sessInfo())
+		}
+	}
+}
+
+func (s *wtClient) sessInfo() string {
+	if !s.sessSeen {
+		return ""
+	}
+	return fmt.Sprintf(" (session closed by server: %s code=%d msg=%q)", s.sessHow, s.sessCode, s.sessMsg)
+}
+
+// wtResched is a scheduling point between two steps of a client action that
+// are separate packets on a real network: the caller parks as ready, so the
+// policy decides who runs next (under fifo: whoever has waited longest, e.g.
+// the server's reader of what was just sent).
+func wtResched() { simrt.Block(func() bool { return true }) }
+
+// close is the client closing the session in an orderly way: FIN on the data
+// stream, CLOSE_WEBTRANSPORT_SESSION(0,"") + FIN on the CONNECT stream, then
+// the (unpooled) connection goes away.
+func (s *wtClient) close() {
+	if s.closed {
+		return
+	}
+	s.closed = true
+	cn := s.conn
+	if cn.bidi != nil {
+		cn.bidi.in.wtFin()
+		simrt.Settle()
+		wtResched()
+	}
+	val := binary.BigEndian.AppendUint32(nil, 0)
+	b := quicvarint.Append(nil, wtCloseSessionCapsule)
+	b = quicvarint.Append(b, uint64(len(val)))
+	cn.req.in.write(append(b, val...))
+	cn.req.in.wtFin()
+	simrt.Settle()
+	wtResched()
+	cn.clientCloseConn()
+	simrt.Settle()
+}
+
+// reset is the client vanishing abruptly: the data stream is reset, then the
+// whole connection is lost.
+func (s *wtClient) reset() {
+	if s.closed {
+		return
+	}
+	s.closed = true
+	cn := s.conn
+	if cn.bidi != nil {
+		cn.bidi.clientReset(wtAppErrorZero)
+		simrt.Settle()
+		wtResched()
+	}
+	cn.req.clientReset(h3RequestCancelled)
+	cn.clientCloseConn()
+	simrt.Settle()
+}
